@@ -152,8 +152,16 @@ def run(ctx):
             kw.update(center_freq=1 * u.GHz, chan_bw=sr)
         if cls == 'BasebandSignal':
             kw.update(center_freq=1 * u.GHz)
-        z = getattr(pb, cls)(data, **kw)
-        inp = dict(op='fast_len', cls=cls, len=L, has_start=st is not None, sample_rate=str(sr))
+        # a third of the signals are Dask-backed (readers' use_dask=True path), with one or several chunks along time
+        chunks = None
+        if L > 0 and rng.random() < 0.34:
+            import dask.array as da
+            c0 = rng.choice([L, max(1, L // 2), max(1, L // 3), rng.randrange(1, L + 1)])
+            chunks = (c0,) + shape[1:]
+            z = getattr(pb, cls)(da.from_array(data, chunks=chunks), **kw)
+        else:
+            z = getattr(pb, cls)(data, **kw)
+        inp = dict(op='fast_len', cls=cls, len=L, has_start=st is not None, sample_rate=str(sr), dask_chunks=chunks and list(chunks))
         ctx.seen(inp, nontrivial=L > 10, sample=L > 10)
         ctx.count('fast_len')
         try:
@@ -162,7 +170,12 @@ def run(ctx):
             ctx.fail('fast_len_raises', inp, impl=repr(e))
             continue
         want = oracle_prev(L)
-        ok = (len(y) == want and type(y) is type(z) and np.array_equal(y.data, data[:want])
+        try:
+            ydata = np.asarray(y.data)
+        except Exception as e:
+            ctx.fail('fast_len_result_does_not_compute', inp, impl=repr(e))
+            continue
+        ok = (len(y) == want and type(y) is type(z) and ydata.shape == y.shape and np.array_equal(ydata, data[:want])
               and y.sample_rate == z.sample_rate
               and ((y.start_time is None) == (st is None))
               and (st is None or abs((y.start_time - z.start_time).to_value(u.s)) == 0))
